@@ -699,7 +699,7 @@ Theorem run_is_spec_trace run_tbl m pre ms post n d :
   MachineP.path_ok Begin (pre ++ ms :: post) = Some d ->
   has_kind Msc pre = false -> is_kind Msc ms = true -> (n >= 1)%nat ->
   let p := pre ++ ms :: post in
-  let rdm := m_rdm m || has_kind Val p in
+  let rdm := has_kind Val p in
   Machine.run run_tbl m p n = RunOk (mkM Begin [] rdm 0) (spec_trace pre ms post n rdm).
 Proof.
   intros Hwf Hm Hp Hpre Hms Hn p rdm.
